@@ -27,6 +27,10 @@ const ROOT_HASH_WINDOW: u64 = 10;
 // https://github.com/celestiaorg/celestia-node/blob/da3b0d37488305051b6c8d2144a2caadfeadcc7d/share/shwap/p2p/shrex/peers/options.go#L54
 const POOL_VALIDATION_TIMEOUT: Duration = Duration::from_secs(120);
 
+#[cfg(eigerco_lumina_verif)]
+#[path = "pool_tracker_verif_hooks.rs"]
+pub(crate) mod verif_hooks;
+
 /// Pool tracker for managing hash-specific and discovered peer pools
 pub struct PoolTracker<S> {
     /// Height-specific pools: height -> peer pool
